@@ -97,14 +97,15 @@ def _run_alpha(args):
     import collections
 
     from .driver import analyse
-    from .metamorph import alpha_rename_tree
+    from .metamorph import alpha_rename_tree, insert_noop_tree
 
-    prop, repo_root = args
-    name = "twin: every local variable renamed, package re-emitted without comments (metamorphic)"
+    prop, repo_root, which = args
+    name = {"alpha": "twin: every local variable renamed, package re-emitted without comments (metamorphic)",
+            "noop": "twin: a new local at the top of every function and an unused helper in every module (metamorphic)"}[which]
     tmp = tempfile.mkdtemp(prefix="irpy-sa-")
     try:
         _copy_tree(repo_root, tmp)
-        stats = alpha_rename_tree(tmp)
+        stats = alpha_rename_tree(tmp) if which == "alpha" else insert_noop_tree(tmp)
         try:
             a, _ = analyse(prop, repo_root, "quick")
             b, _ = analyse(prop, tmp, "quick")
@@ -119,7 +120,7 @@ def _run_alpha(args):
             return (name, "FALSE-ALARM", f"findings differ at {diff[:4]}")
         if oa != ob:
             return (name, "FALSE-ALARM", f"instances examined differ: {dict(oa)} vs {dict(ob)}")
-        return (name, "silent", f"{stats['locals_renamed']} locals renamed in {stats['modules']} modules")
+        return (name, "silent", ", ".join(f"{k}={v}" for k, v in stats.items()))
     finally:
         shutil.rmtree(tmp, ignore_errors=True)
 
@@ -130,10 +131,12 @@ def run(prop: str, repo_root: str) -> dict:
         return {"variants": 0, "note": "no self-test variants registered for this property"}
     base = _findings(prop, repo_root)
     jobs = [(prop, repo_root, i, base) for i in range(len(vs))]
-    with multiprocessing.Pool(min(16, len(jobs) + 1)) as pool:
-        alpha = pool.apply_async(_run_alpha, ((prop, repo_root),))
+    with multiprocessing.Pool(min(16, len(jobs) + 2)) as pool:
+        alpha = pool.apply_async(_run_alpha, ((prop, repo_root, "alpha"),))
+        noop = pool.apply_async(_run_alpha, ((prop, repo_root, "noop"),))
         results = pool.map(_run_one, jobs)
         results.append(alpha.get())
+        results.append(noop.get())
     summary = {"variants": len(results), "results": [{"name": n, "verdict": s, "detail": d} for n, s, d in results]}
     bad = [r for r in results if r[1] in ("MISSED", "FALSE-ALARM", "broken-variant", "twin-analysis-error")]
     na = [r for r in results if r[1] == "not-applicable"]
